@@ -164,9 +164,9 @@ def inErrs (env : Env) (sup : Support) (inStruct : Bool) : TyName → List Rule
     | .prim _ =>
       if inStruct && sd = .std then [.stdOptionInStruct]
       else if sup.option then [] else [.optionUnsupported]
-    | .strSlice .. => []
-    | .strRef lt e s => inErrs env sup inStruct (.strRef lt e s)
-    | .primSlice ltm p s => inErrs env sup inStruct (.primSlice ltm p s)
+    | .strSlice .. => if sup.option then [] else [.optionUnsupported]
+    | .strRef lt e s => (if sup.option then [] else [.optionUnsupported]) ++ inErrs env sup inStruct (.strRef lt e s)
+    | .primSlice ltm p s => (if sup.option then [] else [.optionUnsupported]) ++ inErrs env sup inStruct (.primSlice ltm p s)
     | .box _ => [.optBoxInInput]
     | _ => [.optOfOther]
   | .res .. => [.resultNotTopLevel]
